@@ -39,6 +39,7 @@ def cases(tier, seed):
     cfgs = F.configs(b['max_n'], F.CLASSES_2D, l_max=b['l_max_2d'], deformed=False) + \
         F.configs(b['max_n'], F.CLASSES_3D, l_max=b['l_max_3d'], deformed=False)
     cfgs += F.thin_configs(b['max_n'], l_max=b['l_thin'])      # thin open-boundary lattices (a side of length 1)
+    cfgs += F.ignored_parameter_configs(b['max_n'], l_max=b['l_thin'])   # Color666Planar with L_y != L_x
     out = [dict(c, cap=b['cap']) for c in cfgs]
     base = list(out)
     out += [{'part': 'session', 'cfgs': [dict(c, cap=min(b['cap'], 60000)) for c in seq]}
